@@ -118,6 +118,7 @@ def index_doc(doc):
             for r in ex.get("tableBody", []):
                 rows[r["id"]] = ex
         idx[sc["id"]] = {"scenario": sc, "rows": rows, "bg_steps": {s["id"] for s in bg_steps}, "own_steps": {s["id"] for s in sc.get("steps", [])},
+                         "step_order": ([s["id"] for s in bg_steps] + [s["id"] for s in sc.get("steps", [])]) if sc.get("steps") else [],
                          "tags": list(inherited_tags) + list(sc.get("tags", [])), "has_examples": bool(sc.get("examples"))}
 
     fbg = []
@@ -187,7 +188,14 @@ def resolution_problems(doc, pickles):
                     out.append(w2 + ".astNodeIds=%r: background step with a foreign row" % (sr,))
             else:
                 out.append(w2 + ".astNodeIds[0]=%r is not a step of this scenario or of a background in scope" % (sr[0],))
+        got_steps = [s.get("astNodeIds", [None])[0] if isinstance(s.get("astNodeIds"), list) and s.get("astNodeIds") else None for s in p.get("steps", [])]
+        if got_steps != ctx["step_order"] and all(g in ctx["own_steps"] or g in ctx["bg_steps"] for g in got_steps):
+            out.append(where + ".steps reference %r, but the steps this pickle is made from are %r (background steps in scope, then the scenario's own, in order)" % (got_steps, ctx["step_order"]))
         tags = list(ctx["tags"]) + (list(ctx["rows"][row].get("tags", [])) if row is not None else [])
+        got_tags = [t.get("astNodeId") for t in p.get("tags", [])]
+        want_tags = [t["id"] for t in tags]
+        if got_tags != want_tags and all(g in set(want_tags) for g in got_tags):
+            out.append(where + ".tags reference %r, but the tags this pickle inherits are %r (feature, rule, scenario, examples, in order)" % (got_tags, want_tags))
         by_id = {t["id"]: t for t in tags}
         for ti, t in enumerate(p.get("tags", [])):
             src = by_id.get(t.get("astNodeId"))
